@@ -30,3 +30,7 @@ Lemma real_kinds_agree :
   real_kinds_ucon = real_kinds_staking /\
   real_kinds_staking = [2%N; 3%N; 4%N; vote_certificate].
 Proof. split; vm_compute; reflexivity. Qed.
+
+(* the working tree contains both repairs: it is the setting [fx_now] of the main theorems *)
+Lemma real_tree_is_repaired : mkFix real_fx_distinct real_fx_zero = fx_now.
+Proof. vm_compute. reflexivity. Qed.
